@@ -786,6 +786,10 @@ fn scratch_root(ctx: &Ctx) -> PathBuf {
 }
 
 fn run_bin(ctx: &Ctx, bin: &str, source: &str) -> Result<BinOut, String> {
+    run_bin_with_timeout(ctx, bin, source, BIN_TIMEOUT_MS)
+}
+
+fn run_bin_with_timeout(ctx: &Ctx, bin: &str, source: &str, timeout_ms: u64) -> Result<BinOut, String> {
     let n = SCRATCH_SEQ.fetch_add(1, Ordering::Relaxed);
     let dir = scratch_root(ctx).join(format!("{}", n));
     std::fs::create_dir_all(&dir).map_err(|e| format!("mkdir {}: {}", dir.display(), e))?;
@@ -808,7 +812,7 @@ fn run_bin(ctx: &Ctx, bin: &str, source: &str) -> Result<BinOut, String> {
         match child.try_wait() {
             Ok(Some(st)) => break st.code(),
             Ok(None) => {
-                if start.elapsed().as_millis() as u64 > BIN_TIMEOUT_MS {
+                if start.elapsed().as_millis() as u64 > timeout_ms {
                     let _ = child.kill();
                     let _ = child.wait();
                     timed_out = true;
@@ -1687,6 +1691,44 @@ pub fn run(ctx: &Ctx, replay: Option<&Value>) -> i32 {
         }
     }
 
+    // exit status with many failing tests: "non-zero iff at least one test failed", however many
+    if Path::new(&bin).exists() {
+        let counts: Vec<usize> = if thorough { vec![1, 2, 255, 256, 257, 512] } else { vec![1, 256] };
+        let outcomes: Vec<(usize, String, Result<BinOut, String>)> = counts
+            .par_iter()
+            .map(|n| {
+                let mut src = String::new();
+                for i in 0..*n {
+                    src.push_str(&format!(".test \"t{}\" {{\n    .assert 1 == 2\n    brk\n}}\n", i));
+                }
+                let r = run_bin_with_timeout(ctx, &bin, &src, 300_000);
+                (*n, src, r)
+            })
+            .collect();
+        for (n, src, r) in outcomes {
+            ctx.eval(|| json!({"failing_tests": n}));
+            match r {
+                Ok(out) => {
+                    if out.timed_out {
+                        ctx.cap(format!("`mos test` with {} failing tests did not finish within 300 s (no verdict)", n));
+                    } else if out.status == Some(0) || out.status.is_none() {
+                        ctx.finding(Finding::new(
+                            "verdict:many-tests:exit-status".to_string(),
+                            format!("`mos test` on a file with {} failing tests exits with status {:?}", n, out.status),
+                            json!({"kind": "bin", "failing_tests": n, "files": {"main.asm": src}}),
+                        ));
+                    } else {
+                        ctx.count("many_failing_tests_exit_nonzero");
+                    }
+                }
+                Err(e) => {
+                    eprintln!("C18 machinery error: {}", e);
+                    return 2;
+                }
+            }
+        }
+        let _ = std::fs::remove_dir_all(scratch_root(ctx));
+    }
     ctx.set("seconds_after_real_binary", json!(ctx.wall()));
     ctx.finish(
         "exploration",
